@@ -2760,6 +2760,14 @@ class ChannelManager:
         # Process the response
         channel.on_connection_response(response)
 
+        # Remember the channel by destination CID right away: the peer may send
+        # credits as soon as it has sent its response
+        if channel.state == LeCreditBasedChannel.State.CONNECTED:
+            le_connection_channels = self.le_coc_channels.setdefault(
+                connection.handle, {}
+            )
+            le_connection_channels[channel.destination_cid] = channel
+
     def on_l2cap_credit_based_connection_request(
         self,
         connection: Connection,
@@ -2888,8 +2896,13 @@ class ChannelManager:
         connection_result, channels = pending_connection
 
         # Process the response
+        le_connection_channels = self.le_coc_channels.setdefault(connection.handle, {})
         for channel, destination_cid in zip(channels, response.destination_cid):
             channel.on_enhanced_connection_response(destination_cid, response)
+            # Remember the channel by destination CID right away: the peer may send
+            # credits as soon as it has sent its response
+            if channel.state == LeCreditBasedChannel.State.CONNECTED:
+                le_connection_channels[destination_cid] = channel
 
         if (
             response.result
@@ -2958,10 +2971,6 @@ class ChannelManager:
             logger.exception('connection failed')
             del connection_channels[source_cid]
             raise
-
-        # Remember the channel by source CID and destination CID
-        le_connection_channels = self.le_coc_channels.setdefault(connection.handle, {})
-        le_connection_channels[channel.destination_cid] = channel
 
         return channel
 
@@ -3067,11 +3076,6 @@ class ChannelManager:
             for cid in source_cids:
                 del connection_channels[cid]
             raise
-
-        # Remember the channel by source CID and destination CID
-        le_connection_channels = self.le_coc_channels.setdefault(connection.handle, {})
-        for channel in channels:
-            le_connection_channels[channel.destination_cid] = channel
 
         return channels
 
